@@ -235,6 +235,44 @@ def write_replay(prop, f, res, idx, sr=None):
 class UnitRun:
     pass
 
+_BASELINE = None
+def new_function_rule(unit, gen, fails, undec):
+    """Modular verification checks a caller against its callees' CONTRACTS.  A function that is not in the baseline list
+    (spec/baseline_fns.json: the functions the contracts were written against) has no contract, so
+      * a failed obligation of a function that calls such a NEW function (e.g. a helper extracted by a refactor), and
+      * a failed safety obligation inside a NEW function (its callers' guarantees are unknown to it)
+    say nothing about the code: they become UNDECIDED.  (The bounded replay search may still turn them into a violation
+    with a concrete failing input.)"""
+    global _BASELINE
+    if _BASELINE is None:
+        try: _BASELINE = json.load(open(os.path.join(SPEC, 'baseline_fns.json')))
+        except Exception: _BASELINE = {}
+    base = set(_BASELINE.get(unit, []))
+    if not base: return fails, undec
+    newfns = [f for f in gen.fns if ('%s::%s' % (f.module, f.path)) not in base]
+    if not newfns: return fails, undec
+    newnames = {}
+    for f in newfns: newnames[f.path.split('::')[-1]] = f
+    lines = gen.text.split('\n')
+    keep = []
+    for x in fails:
+        if x.get('canary'): keep.append(x); continue
+        rec = next((g_ for g_ in gen.fns if g_.path == x['fn'] and g_.module == x['module']), None)
+        reason = None
+        if rec is not None and ('%s::%s' % (rec.module, rec.path)) not in base:
+            reason = 'the function %s is not one the contracts were written against (added by this change)' % rec.path
+        elif rec is not None:
+            body = '\n'.join(lines[rec.line_start - 1:rec.line_end])
+            called = sorted(n for n in newnames if re.search(r'(?<![A-Za-z0-9_])%s\s*(::\s*<[^>]*>)?\s*\(' % re.escape(n), body))
+            if called:
+                reason = 'it calls %s, added by this change and without a contract (modular verification cannot see through it)' % ', '.join(called)
+        if reason:
+            undec.append({'message': '%s -- not decided: %s' % (x['message'], reason), 'fn': x['fn'], 'module': x['module'], 'kind': 'lost-anchor',
+                          'line': x.get('line', 0), 'rendered': x.get('rendered', ''), 'labels': list(rec.labels) if rec else [], 'src': x.get('src')})
+        else:
+            keep.append(x)
+    return keep, undec
+
 def run_unit(prop, unit, pcfg, cache, usize=8, seed=None, want_canary=True, force_external=None, depth=0):
     """extract + verify one unit for one property; returns a UnitRun (raises Undecided/ExtractError)"""
     from concurrent.futures import ThreadPoolExecutor
@@ -343,6 +381,7 @@ def run_unit(prop, unit, pcfg, cache, usize=8, seed=None, want_canary=True, forc
         m = x.get('module')
         return prop in safety_props(unitcfg, m) or prop in termination_props(unitcfg, m)
     undec = [x for x in undec if relevant(x)]
+    fails, undec = new_function_rule(unit, gen, fails, undec)
     u.unit, u.gen, u.unitcfg, u.mods, u.res, u.fails, u.undec = unit, gen, unitcfg, mods, res, fails, undec
     u.canaries, u.canaries_failed = exp_in, exp_in & failed_canaries
     u.obs = obligations_for(prop, gen, unitcfg, mods)
@@ -444,6 +483,7 @@ def main():
         if k: knownhits.append((f, k[0]))
         else: viol.append(f)
     searched = {}
+    search_notes = []
     # A function whose contract could not be decided (its code was rewritten past the proof's anchors, or uses an API without a
     # specification) is still executable: if a paired bounded Kani harness -- the same postcondition as executable code --
     # finds an input and that input FAILS when replayed on the real crate, the failing input itself is the violation.
@@ -465,6 +505,7 @@ def main():
                     sr = dict(replay_search.search(h, timeout=int(os.environ.get('VERIF_REPLAY_TIMEOUT', '400'))), harness=h)
                 except Exception as e:
                     sr = {'status': 'search-error: %s' % e, 'harness': h}
+                search_notes.append('bounded search %s (%s): %s' % (h, sr.get('bound', '?'), sr.get('status')))
                 if sr.get('status') == 'replayed-fails':
                     f = {'obligation': l if '@' not in l and ' for ' not in (x.get('fn') or '') else '%s@%s' % (l, x['fn']), 'kind': 'undecided-by-verus+failing-input', 'fn': x.get('fn'), 'module': x.get('module'),
                          'src': x.get('src') or '', 'line': x.get('line', 0), 'clause': c['text'],
@@ -505,6 +546,7 @@ def main():
     if rc == 0 and rel_undec:
         for x in rel_undec[:5]:
             print('UNDECIDED property=%s: %s in %s (%s)' % (prop, x['message'], x.get('fn') or x.get('module'), x['kind']))
+        for n_ in search_notes: print('UNDECIDED property=%s: %s' % (prop, n_))
         rc = 2
     wall = time.time() - t0
     # ---------------- evidence
